@@ -104,9 +104,9 @@ def gen_ruleset(rng, profile, name=""):
     for n, i in enumerate(idx): layout[i] = ["eof", n + 1]
     # '|' actions: a rule shares the action of the rule that follows it in the file
     for i, e in enumerate(layout[:-1]):
-        # (not on a '$' rule: known finding bar-after-dollar; not across a change of start conditions: with
-        # <SC>{ ... } scopes flex, like 2.6.4, does not take the scope for the next "rule")
-        if e[0] == "rule" and layout[i + 1][0] == "rule" and not rules[e[1] - 1].get("dollar") \
+        # (not across a change of start conditions: with <SC>{ ... } scopes flex, like 2.6.4, does not take the
+        # scope for the next "rule")
+        if e[0] == "rule" and layout[i + 1][0] == "rule" \
                 and rules[e[1] - 1]["scs"] == rules[layout[i + 1][1] - 1]["scs"] and rng.random() < o.get("p_bar", 0):
             rules[e[1] - 1]["bar"] = True
     rs = ruleset(rules, scs, ci=ci, sevenbit=seven, defs=defs, eofs=eofs, layout=layout, name=name)
